@@ -12,6 +12,8 @@ def build(targets=None, jobs=16):
     os.makedirs(BUILD, exist_ok=True)
     with open(os.path.join(BUILD, ".lock"), "w") as lk:
         fcntl.flock(lk, fcntl.LOCK_EX)
+        import mk_coqproject
+        mk_coqproject.main()
         if not os.path.exists(os.path.join(COQ, "Makefile")) or \
            os.path.getmtime(os.path.join(COQ, "Makefile")) < os.path.getmtime(os.path.join(COQ, "_CoqProject")):
             subprocess.run(["coq_makefile", "-f", "_CoqProject", "-o", "Makefile"], cwd=COQ,
